@@ -180,6 +180,7 @@ class Interp:
     # ---------------------------------------------------------------- entry
     def run(self, data: dict[str, Any]) -> str:
         self.scope = Scope(data)
+        self.root_globals = data
         self.loops: list[ForLoopObj] = []
         self.cycles: dict[Any, int] = {}
         self.stopindex: dict[Any, int] = {}
@@ -446,8 +447,9 @@ class Interp:
     def isolated(self, ns: dict[str, Any], body: list[Any], out: list[str], forloop_ok: bool = False) -> None:
         """Run body in a fresh scope that sees only globals + ns."""
         saved = (self.scope, self.loops, self.cycles, self.stopindex, self.macros)
-        base_globals = saved[0].globals_chain
-        self.scope = Scope({}, [ns, *base_globals])
+        # only global data and the arguments passed: not the arguments of an enclosing
+        # render / call
+        self.scope = Scope({}, [ns, self.root_globals])
         self.loops = []
         self.cycles = {}
         self.stopindex = {}
@@ -533,10 +535,6 @@ class Interp:
             v = self.expr(s.arg)
             if not isinstance(v, (list, tuple)):
                 raise OutOfDomain("render for non-array")
-            if len(v) > 1 and self.has_state(body):
-                # whether state written in one iteration is visible in the next is
-                # decided under C07 (isolation), not modelled here
-                raise OutOfDomain("render-for body writes state")
             n = len(v)
             for i, item in enumerate(v):
                 fl = ForLoopObj(key, n, UNDEF)
